@@ -1,10 +1,13 @@
 """C11 round trip — the tie of the print-then-parse theorem to the implementation.
 
 The theorem (C11/RoundSpec.v, Round*.v; Properties/C11round.v) says: for every abstract lexer
-specification `sp`, layout `lay` and flag setting (awc = allow_wholeline_comments, pe = posix_escapes)
-with `wf_aspec awc sp` and `wf_layout awc lay sp`
+specification `sp`, layout `lay` and flag setting (awc = allow_wholeline_comments, pe = posix_escapes,
+iw = ignore_whitespace) with `wf_aspec awc sp` and `wf_layout awc lay sp`
 
-    lex_from_str repaired (print_spec lay sp) 0 awc pe [] = Done (POk (spec_of pe lay sp))
+    lex_from_str repaired (print_spec lay sp) 0 awc pe iw [] = Done (POk (spec_of pe iw lay sp))
+
+(`repaired` includes the proposed white-space repair of unescape, C11.IW_ESCAPE_FIXED: until it is committed the
+cases are drawn with iw = false, where — theorem C11_iw_off_irrelevant — the repair is invisible.)
 
 This check makes that statement speak about /repo.  Random (sp, lay, awc, pe) inside the hypotheses
 (checked twice: by an independent Python implementation of wf_aspec / wf_layout and by the extracted
@@ -28,6 +31,7 @@ the premise and only counted.
 """
 from vlib import core
 from checks.C11 import sections, parse_errs
+from checks import C11 as C11check
 
 WS = [9, 10, 11, 12, 13, 32, 133, 8206, 8207, 8232, 8233]          # Pattern_White_Space
 LINESEP = [10, 11, 13, 8232, 8233]
@@ -47,7 +51,11 @@ def lex_esc_literal(s):
     return (c in "xuU" and len(s) > 1 and s[1] in XDIGIT) or c in DIGIT or c in "afnrtv\\" or c in "pP" or c in "dDsSwW" or c in "Az"
 
 
-def map_escapes(pe, re):
+# char::is_whitespace: what the regex engine skips when ignore_whitespace is on
+RX_WS = set(map(chr, [9, 10, 11, 12, 13, 32, 0x85, 0xA0, 0x1680] + list(range(0x2000, 0x200B)) + [0x2028, 0x2029, 0x202F, 0x205F, 0x3000]))
+
+
+def map_escapes(pe, re, iw=False):
     out, i = [], 0
     while i < len(re):
         c = re[i]
@@ -63,6 +71,8 @@ def map_escapes(pe, re):
                 out.append("\\x08" if pe else "\\b")
             elif c2 in META or lex_esc_literal(re[i + 1:]):
                 out.append("\\" + c2)
+            elif iw and c2 in RX_WS:
+                out.append("\\" + c2 if ord(c2) < 128 else "\\x{%X}" % ord(c2))
             else:
                 out.append(c2)
             i += 2
@@ -197,7 +207,7 @@ def put_items(o, items):
         o.put(it[1] if it[0] in "wn" else "//" + it[1] + it[2])
 
 
-def py_print(pe, sp, lay):
+def py_print(pe, sp, lay, iw=False):
     """(text, transcript of the parser state the text denotes)"""
     o = Out()
     names = ["INITIAL"] + [n for n, _ in sp["states"]]
@@ -247,7 +257,7 @@ def py_print(pe, sp, lay):
         o.put(rl["trail"])
         put_items(o, rl["after"])
         ids = ",".join(str(names.index(n)) for n in r["pre"]) or "-"
-        rrec.append("r %s %d %d %s %s %s" % (nm, s, e, xh(map_escapes(pe, r["re"])), ids, tg))
+        rrec.append("r %s %d %d %s %s %s" % (nm, s, e, xh(map_escapes(pe, r["re"], iw)), ids, tg))
     f = lay["final"]
     o.put("" if f[0] == "e" else "//" + f[1] if f[0] == "ec" else "%%" + f[1])
     tr = " ; ".join(["OK %d %d" % (len(rrec), len(srec))] + rrec + srec)
@@ -264,8 +274,8 @@ def enc_items(items):
     return w
 
 
-def encode(awc, pe, sp, lay):
-    w = ["1" if awc else "0", "1" if pe else "0", str(len(sp["states"]))]
+def encode(awc, pe, iw, sp, lay):
+    w = ["1" if awc else "0", "1" if pe else "0", "1" if iw else "0", str(len(sp["states"]))]
     for n, e in sp["states"]:
         w += [xh(n), "1" if e else "0"]
     w.append(str(len(sp["rules"])))
@@ -300,12 +310,12 @@ NAME_PIECES = ["ID", "T", "é", "a'b", 'q"r', "<x>", "+", ";", "''", '""', "%%",
 COMMENT_PIECES = [" c", "%% not a separator", "é ♠ 'x'", "<A>a 'T'", "", "/", "//", "%s X", "\t", "\x0c", "\u200e", "%x Q",
                   "a 'b'", "\U0001F600", "\x85", " ", "%", "\\"]
 PLAIN_ESC = ['"', "'", "<", ">", ",", ";", "%", "!", "=", "@", "_", "/", ":", "`", "é", "♠", "\U0001F600", "q", "h", "y", "g",
-             "ß", "Ω", " ", "\t", "\x0c", "\x85", "\u200e"]
+             "ß", "Ω", " ", "\t", "\x0c", "\x85", "\u200e", "\xa0", "\u3000"]
 LITERALS = list("abcxyz019_=!@:`,;'\"<>%/") + ["é", "♠", "\U0001F600", "ß", "Ω", " ", "\t", "\x0c", "\x85", "\u200e", "\u200f"]
 LEXESC = ["\\d", "\\w", "\\s", "\\n", "\\t", "\\x41", "\\101", "\\u00e9", "\\pL", "\\a", "\\f", "\\r", "\\v", "\\D", "\\S", "\\W", "\\x7a",
           "\\A", "\\z", "\\U0001F600", "\\0", "\\7"]
 GROUPS = ["[a-c]", "[^x]", ".", "(ab|c)", "[é♠]", "(a|é)", "[0-9]", "[\\]a]", "[b\\-c]", "[ \t]", "[<>]", "(?:x y)", "[',\";]",
-          "[%/]", "a{2}", "a{1,3}"]
+          "[%/]", "a{2}", "a{1,3}", "[\\ x]", "[\\\xa0\\#]"]
 
 
 def gen_regex(rng, awc, pe, has_pre):
@@ -468,9 +478,9 @@ def corpus():
 # =====================================================================================
 #  coverage accounting
 # =====================================================================================
-def account(ctx, awc, pe, sp, lay, text):
+def account(ctx, awc, pe, iw, sp, lay, text):
     c = ctx.count
-    c("flags_awc%d_pe%d" % (awc, pe))
+    c("flags_awc%d_pe%d_iw%d" % (awc, pe, iw))
     c("states_%s" % ("0" if not sp["states"] else "1-2" if len(sp["states"]) < 3 else "3+"))
     if any(len(dl["seps"]) > 0 for dl in lay["dlines"]):
         c("declaration_line_with_several_states")
@@ -499,8 +509,10 @@ def account(ctx, awc, pe, sp, lay, text):
             c("target_" + {"R": "replace", "+": "push", "-": "pop"}[r["target"][1]])
             if r["name"] is None:
                 c("target_on_skip_rule")
-        if map_escapes(pe, r["re"]) != r["re"]:
+        if map_escapes(pe, r["re"], iw) != r["re"]:
             c("regex_rewritten_by_unescape")
+        if iw and map_escapes(pe, r["re"], True) != map_escapes(pe, r["re"], False):
+            c("regex_with_escaped_white_space_under_ignore_whitespace")
         if r["re"] and r["re"][-1] in WSS:
             c("regex_ends_in_escaped_blank")
         if r["re"].endswith("\\\\"):
@@ -529,17 +541,19 @@ def account(ctx, awc, pe, sp, lay, text):
     c("text_bytes", len(text.encode("utf-8")))
 
 
-def describe(awc, pe, sp, lay):
-    return {"awc": awc, "pe": pe, "spec": sp, "layout": lay}
+def describe(awc, pe, iw, sp, lay):
+    return {"awc": awc, "pe": pe, "iw": iw, "spec": sp, "layout": lay}
 
 
-def opt_string(awc, pe, rng):
+def opt_string(awc, pe, iw, rng):
     """None = from_str (defaults), else the flags for new_with_options"""
     fl = []
     if awc or rng.random() < 0.3:
         fl.append("awc:%d" % awc)
     if pe or rng.random() < 0.3:
         fl.append("pe:%d" % pe)
+    if iw or (C11check.IW_ESCAPE_FIXED and rng.random() < 0.3):
+        fl.append("iw:%d" % iw)
     return ",".join(fl) if fl else None
 
 
@@ -565,7 +579,7 @@ def run_part(ctx, tag="C11round"):
     ctx.oblige(bad["thm"] == 0, "mirror builds spec_of on print_spec (the theorem's statement, evaluated)")
     ctx.coverage["rule"] = (
         "a corpus (the minimal texts '%%%%', '%%%%%%%%', a rule on the line of the %%%%, one specification with every construct under "
-        "awc x pe) then %d random (specification, layout, awc, pe) inside wf_aspec/wf_layout (asserted by an independent Python "
+        "awc x pe) then %d random (specification, layout, awc, pe, iw — iw only once C11.IW_ESCAPE_FIXED) inside wf_aspec/wf_layout (asserted by an independent Python "
         "implementation AND by the extracted Coq booleans): 0-8 start states (names from the scanner's language incl. near-INITIAL), "
         "grouped into declaration lines at random (keyword %%s/%%S/%%x/%%X + alphanumerics, blanks from all six in-line "
         "Pattern_White_Space characters incl. multi-byte ones, exactly one blank between names), 0-25 rules: <..> prefixes with "
@@ -591,13 +605,16 @@ def run_batch(ctx, rng, n, exe, rexe, bad, first=()):
     for i in range(n):
         if i < len(first):
             awc, pe, sp, lay = first[i]
+            iw = C11check.IW_ESCAPE_FIXED and i % 2 == 1
         else:
             awc, pe = rng.random() < 0.5, rng.random() < 0.35
+            # ignore_whitespace: only once the white-space repair of unescape is in /repo (see the module docstring)
+            iw = C11check.IW_ESCAPE_FIXED and rng.random() < 0.35
             sp = random_spec(rng, awc, pe)
             lay = random_layout(rng, awc, sp)
         why = wf_aspec(awc, sp) + wf_layout(awc, lay, sp)
-        assert not why, "generator produced a case outside wf_aspec/wf_layout: %s\n%r" % (why, describe(awc, pe, sp, lay))
-        recs.append((awc, pe, sp, lay))
+        assert not why, "generator produced a case outside wf_aspec/wf_layout: %s\n%r" % (why, describe(awc, pe, iw, sp, lay))
+        recs.append((awc, pe, iw, sp, lay))
     cases = [encode(*r) for r in recs]
     coq = core.run_lines([rexe], cases)
     texts, expected, mirror = [], [], []
@@ -612,22 +629,22 @@ def run_batch(ctx, rng, n, exe, rexe, bad, first=()):
         expected.append(f[1])
         mirror.append(f[2])
     hlines = []
-    for (awc, pe, sp, lay), text, exp in zip(recs, texts, expected):
+    for (awc, pe, iw, sp, lay), text, exp in zip(recs, texts, expected):
         l = "src=%s" % text.encode("utf-8").hex()
-        o = opt_string(awc, pe, rng)
+        o = opt_string(awc, pe, iw, rng)
         if o is not None:
             l += " opt=%s f=%s" % (o, o)
         if sp["rules"]:
-            l += " w=%s" % ";".join((map_escapes(pe, r["re"]).encode("utf-8").hex() or "-") for r in sp["rules"])
+            l += " w=%s" % ";".join((map_escapes(pe, r["re"], iw).encode("utf-8").hex() or "-") for r in sp["rules"])
         hlines.append(l)
     impl = core.run_lines([exe], hlines)
     for rec, case, text, exp, m, hline, a in zip(recs, cases, texts, expected, mirror, hlines, impl):
-        awc, pe, sp, lay = rec
+        awc, pe, iw, sp, lay = rec
         ctx.case(case, len(sp["states"]) >= 1 and len(sp["rules"]) >= 2, {"text": text[:400]})
-        account(ctx, awc, pe, sp, lay, text)
+        account(ctx, awc, pe, iw, sp, lay, text)
         replay = "echo '%s' | .work/ocaml/c11round/gvm_c11round ; echo '%s' | .work/target/release/c11" % (case, hline)
         # (b) the Coq printer / denotation is the one described
-        ptext, ptr = py_print(pe, sp, lay)
+        ptext, ptr = py_print(pe, sp, lay, iw)
         if ptext != text or ptr != exp:
             bad["print"] += 1
             ctx.violation({"what": "the extracted Coq definitions (C11/Print.v print_spec, spec_of) and the independent Python printer / "
@@ -637,8 +654,8 @@ def run_batch(ctx, rng, n, exe, rexe, bad, first=()):
         # (d) the statement of the theorem, evaluated
         if m != exp:
             bad["thm"] += 1
-            ctx.violation({"what": "ROUND-TRIP STATEMENT FALSE FOR THIS CASE: lex_from_str repaired (print_spec lay sp) 0 awc pe [] (the "
-                                   "extracted mirror) is not Done (POk (spec_of pe lay sp)) although wf_aspec/wf_layout hold",
+            ctx.violation({"what": "ROUND-TRIP STATEMENT FALSE FOR THIS CASE: lex_from_str repaired (print_spec lay sp) 0 awc pe iw [] (the "
+                                   "extracted mirror) is not Done (POk (spec_of pe iw lay sp)) although wf_aspec/wf_layout hold",
                            "case": describe(*rec), "text": text, "mirror": m[:3000], "expected": exp[:3000], "replay_cmd": replay},
                           no_input=True)
         # (c) the round trip on the implementation
